@@ -461,7 +461,9 @@ def extract_wfs_cbin(
     np.savez(channels_fn, channels=chan_map)
     # clean up the cached bin file
     if file_to_unlink is not None:
-        file_to_unlink.with_suffix(".meta").unlink()
+        if scratch_dir is not None:
+            # without a scratch directory the .meta next to the decompressed file is the recording's own
+            file_to_unlink.with_suffix(".meta").unlink()
         file_to_unlink.unlink()
 
 
